@@ -70,10 +70,14 @@ JunctionBalance(s, r, n) ==
 SourceDemand(s, r, n) ==
   Close(N(r.dem[n]), Sub(NetIn(s, r, n, 1), N(r.leak[n])), TolF, TolF)
 
+\* a pattern that does not wrap (s.nowrap) is 0 after its last step (a single multiplier always applies, as in Pattern.at)
+NoWrap(s, pat) == \E i \in DOMAIN s.nowrap : s.nowrap[i] = pat
 PatMult(s, pat, t) ==
   IF pat = "" THEN One
-  ELSE LET m == s.patterns[pat] IN
-       IF Len(m) = 0 THEN One ELSE N(m[(((t + s.PatStart) \div s.Pat) % Len(m)) + 1])
+  ELSE LET m == s.patterns[pat]  step == (t + s.PatStart) \div s.Pat IN
+       IF Len(m) = 0 THEN One
+       ELSE IF NoWrap(s, pat) /\ Len(m) > 1 /\ step >= Len(m) THEN Zero
+       ELSE N(m[(step % Len(m)) + 1])
 RECURSIVE DemSum(_, _, _, _)
 DemSum(s, d, t, i) == IF i > Len(d) THEN Zero
                       ELSE Add(Mul(Mul(N(d[i].base), PatMult(s, d[i].pat, t)), N(s.DM)), DemSum(s, d, t, i + 1))
